@@ -10,14 +10,181 @@ NEED_RG = True
 MANIFEST = dict(
     text="Coq theorems (all templates, capture tables, matchers): interpolate = reference-grammar expansion; "
          "Replacer::replace_all = text between successive matches + expansions + tail; nothing dropped on a "
-         "terminated line; D2 refuted by witness. Tie to the code: hand-written model run (extracted OCaml) "
+         "terminated line; D2 refuted by witness; standard printer's call of the Replacer = replace-all of the range in the "
+         "context of the look-ahead window / whole buffer (< 128 bytes after the range), full statement refuted (panic). Tie to the code: hand-written model run (extracted OCaml) "
          "against the real crates on generated cases, plus the regex crate as oracle on every matching line.",
     note="trusted: Coq kernel, extraction, OCaml driver, Rust harness; regex-automata modelled as a Section "
-         "variable (captures tabulated per case); multi-line (-U) replacement path is exercised by the oracle "
-         "only, not modelled",
+         "variable (captures tabulated per case); the call site StandardSink::matched -> Replacer (buffer, range, "
+         "MAX_LOOK_AHEAD window, multi-line and line search) is modelled (kind 1903) with the whole-buffer regex-crate oracle; "
+         "context lines under -v and the JSON/summary printers are covered by CLI oracles only",
     technique="Coq proof over executable model + extracted-model/implementation correspondence + regex-crate oracle",
     design="§7 C19")
 KNOWN_D2 = "EmptyMatchAtEndOfUnterminatedLastLine"
+KNOWN_WINDOW = "ReplacementWindowMatchEndsPastRange"
+
+# ---- kind 1903: the call site of the Replacer (StandardSink::matched), multi-line and line searches.
+# Patterns whose matches depend on text before/after the matched lines: look-ahead across the end of the
+# range (\n\b, \n^, $ after \n), look-behind at its start, adjacent matches forming one block.
+GLUE_PATTERNS = [
+    r"(\w+)\n\b", r"(\w+)\n", r"(\w+)\n\B", r"(?P<x>a+)\n(?m:^)b?", r"(\w)\n(?m:$)", r"b\n\b|(a)", r"(\w+)$", r"\b(\w)(\w*)",
+    r"(?m:^)(\w+)\n\b", r"(a)\n\b(?P<y>b)?", r"([a-c]+)\s\b", r"(\S+)\s+\b", r"(?P<word>\w+)\n\n", r"(\w+)\n(?m:^)\B",
+    r"x\n\b|(y)\n", r"(-)?\n\b", r"\n\b", r"(\w+)", r"(a)|(b)\n\b", r"(?s:(a.))\b", r"(\w+)\r?\n\b", r"c\b|(a)\n\b",
+    r"(a\n)?", r"\n?", r"(\w*)\n?", r"(?:(a)\n\b)?", r"(a)\n|\b", r"(\w)\n|(?m:^)",
+]
+GLUE_ALPH = b"ab xyc-1\n\n"
+
+
+def gen_glue_input(rng, crlf):
+    lines = []
+    for _ in range(rng.randint(1, 6)):
+        k = rng.random()
+        if k < 0.45:
+            ln = bytes(rng.choice(b"abcxy") for _ in range(rng.randint(1, 4)))      # a word: matches chain into blocks
+        elif k < 0.6:
+            ln = b""
+        else:
+            ln = bytes(rng.choice(ALPH) for _ in range(rng.randint(0, 7)))
+        lines.append(ln)
+    term = b"\r\n" if crlf else b"\n"
+    s = b""
+    for i, ln in enumerate(lines):
+        s += ln
+        if i + 1 < len(lines) or rng.random() < 0.7:
+            s += term
+    if rng.random() < 0.12:
+        # a long tail: more than MAX_LOOK_AHEAD bytes after the early lines, so that the window is cut
+        s += bytes(rng.choice(b"ab x-") for _ in range(rng.randint(120, 140))) + term + rng.choice([b"", b"ab" + term, b"x"])
+    return s
+
+
+def gen_glue_case(rng):
+    pat = rng.choice(GLUE_PATTERNS)
+    if rng.random() < 0.2:
+        pat = rng.choice(GLUE_PATTERNS) + "|" + pat
+    t = gen_template(rng, False)
+    if rng.random() < 0.5:
+        t = rng.choice([b"<$1>", b"[$0]", b"${1}.", b"$1$1", b"X"])
+    multiline = rng.random() < 0.8
+    crlf = (not multiline) and rng.random() < 0.3       # CRLF terminators are exercised with the line search only
+    return dict(pattern=pat, template=t, input=gen_glue_input(rng, crlf), crlf=crlf, only=rng.random() < 0.3,
+                multiline=multiline, malformed=False)
+
+
+def glue_line(c):
+    return vlist([vbytes(c["pattern"]), vbytes(c["template"]), vbytes(c["input"]), vbool(c["crlf"]), vbool(c["only"]),
+                  vbool(c["multiline"])])
+
+
+def run_cli_glue(c):
+    with tempfile.TemporaryDirectory(dir=vlib.CACHE) as d:
+        f = os.path.join(d, "in")
+        open(f, "wb").write(c["input"])
+        cmd = [vlib.RG, "--no-config", "--color", "never", "-N", "--no-filename", "--no-mmap", "-a"]
+        if c["multiline"]:
+            cmd.append("-U")
+        if c["crlf"]:
+            cmd.append("--crlf")
+        if c["only"]:
+            cmd.append("-o")
+        cmd += ["-r", c["template"], "-e", c["pattern"], f]
+        p = subprocess.run(cmd, stdin=subprocess.DEVNULL, stdout=subprocess.PIPE, stderr=subprocess.PIPE)
+        if p.returncode == 2 and b"panicked" not in p.stderr:
+            return None
+        if b"panicked" in p.stderr:
+            return b"PANIC"
+        return p.stdout
+
+
+def check_glue_cases(ctx, cases, cli_every=0):
+    """model (Model/ReplaceGlue.v: which buffer / range / window the standard printer hands to the Replacer) = real
+    printer; oracle: regex crate on the whole buffer, matches restricted to the range."""
+    lines = [glue_line(c) for c in cases]
+    outs = vlib.code(1903, lines)
+    model_in, idx, parsed = [], [], []
+    for i, o in enumerate(outs):
+        if o in ("PANIC", "MISSING") or o.startswith("PARSEFAIL"):
+            ctx.violation("harness %s on replacement call-site case" % o, dict(kind=1903, case=cases[i], line=lines[i]))
+            parsed.append(None)
+            continue
+        v = parse_val(o)
+        parsed.append(v)
+        if v[0] in (0, 3):
+            model_in.append(unparse(v[2]))
+            idx.append(i)
+        elif v[0] == 2:
+            ctx.violation("search error on replacement call-site case", dict(kind=1903, case=cases[i], line=lines[i]))
+    mouts = vlib.model(1903, model_in)
+    for j, i in enumerate(idx):
+        c, v = cases[i], parsed[i]
+        panicked = v[0] == 3
+        code_out = v[1] if isinstance(v[1], bytes) else b""
+        m = parse_val(mouts[j]) if not mouts[j].startswith(("MISSING", "STACK", "PARSEFAIL")) else None
+        if m is None:
+            ctx.violation("model driver failed on replacement call-site case", dict(kind=1903, case=c, line=lines[i], model=mouts[j]))
+            continue
+        m_panic = m[0] == 1
+        m_out = m[1] if isinstance(m[1], bytes) else b""
+        agree, d2, expected, window = v[3][0], v[3][1], (v[3][2] if isinstance(v[3][2], bytes) else b""), v[3][3]
+        events = v[2][5]
+        is_ml = bool(v[2][4])
+        nontrivial = len(events) > 0 and is_ml
+        ctx.note_case(lines[i], nontrivial)
+        ctx.cov["glue_cases"] = ctx.cov.get("glue_cases", 0) + 1
+        if is_ml and any(len(e[0]) > e[2] for e in events):
+            ctx.cov["glue_events_with_text_after_range"] = ctx.cov.get("glue_events_with_text_after_range", 0) + 1
+        if is_ml and any(len(e[0]) > e[3] for e in events):
+            ctx.cov["glue_events_with_cut_window"] = ctx.cov.get("glue_events_with_cut_window", 0) + 1
+        if nontrivial and ctx.cov.get("glue_samples", 0) < 6 and b"$" in c["template"]:
+            ctx.cov["glue_samples"] = ctx.cov.get("glue_samples", 0) + 1
+            ctx.sample(dict(pattern=c["pattern"], template=c["template"].decode("latin1"), input=c["input"].decode("latin1"),
+                            multiline=c["multiline"], only=c["only"], output=code_out.decode("latin1")))
+        if (m_panic, b"" if m_panic else m_out) != (panicked, b"" if panicked else code_out):
+            ctx.violation("standard printer under -r: model of the Replacer call site (buffer, range, look-ahead window) and "
+                          "the real printer disagree (theorems standard_replacement_eq_spec_* no longer describe the code)",
+                          dict(kind=1903, case=c, line=lines[i], model=("PANIC" if m_panic else repr(m_out)),
+                               code=("PANIC" if panicked else repr(code_out)), oracle=repr(expected)))
+        if panicked or not agree:
+            if window:
+                ctx.known(KNOWN_WINDOW, "pattern=%r template=%r input=%r" % (c["pattern"], c["template"], c["input"]))
+            elif d2 and not panicked:
+                ctx.known(KNOWN_D2, "pattern=%r template=%r input=%r -U" % (c["pattern"], c["template"], c["input"]))
+            else:
+                ctx.violation("rg -r%s: printed text differs from the regex crate's replace-all of the matched range in the "
+                              "context of the whole buffer" % (" -U" if c["multiline"] else ""),
+                              dict(kind=1903, case=c, line=lines[i], code=("PANIC" if panicked else repr(code_out)),
+                                   oracle=repr(expected)))
+        if cli_every and i % cli_every == 0 and b"\x00" not in c["template"] and b"\x00" not in c["input"]:
+            cli = run_cli_glue(c)
+            ctx.cov["cli_glue_runs"] = ctx.cov.get("cli_glue_runs", 0) + 1
+            lib = b"PANIC" if panicked else code_out
+            if cli is not None and cli != lib:
+                ctx.violation("rg -U -r output differs from the library printer on the same case",
+                              dict(kind="cli-glue", case=c, cli=repr(cli), library=repr(lib), oracle=repr(expected)))
+
+
+def glue_corpus():
+    res = []
+    for pat, t, inp, only, ml in [
+        (r"(\w+)\n\b", b"[$1]", b"alpha\nbeta\n\ngamma\n- delta\n", False, True),
+        (r"(\w+)\n\b", b"[$1]", b"alpha\nbeta\n\ngamma\n- delta\n", True, True),
+        (r"(\w+)\n\b", b"<$1>", b"one\ntwo\nthree\n\n", False, True),
+        (r"(\w+)\n", b"<$1>", b"alpha\nbeta\n\ngamma\n- delta\n", False, True),
+        (r"(\w)\n(?m:$)", b"$1!", b"a\n\nb\nc\n", False, True),
+        (r"(a)\n(?m:^)b", b"${1}_", b"a\nb\na\nc\n", True, True),
+        (r"\b(\w+)", b"<$1>", b"ab cd\nef\n", False, False),
+        (r"(\w+)\n\b", b"[$1]", b"ab\n" + b"x" * 127 + b"\n", False, True),
+        (r"(\w+)\n\b", b"[$1]", b"ab\n" + b"x" * 128 + b"\n" + b"y\n", False, True),
+    ]:
+        res.append(dict(pattern=pat, template=t, input=inp, crlf=False, only=only, multiline=ml, malformed=False))
+    return res
+
+
+def window_replay(ctx):
+    """the listed known finding ReplacementWindowMatchEndsPastRange (theorem standard_replacement_eq_spec_refuted), on the real code"""
+    c = dict(pattern=r"b\n(?s:.{128})\z|a", template=b"X", input=b"ab\n" + b"x" * 128 + b"yyy\n", crlf=False, only=False,
+             multiline=True, malformed=False)
+    check_glue_cases(ctx, [c], cli_every=1)
+
 
 NAMES = [b"x", b"y", b"word", b"n1", b"_a"]
 PATTERNS = [
@@ -271,6 +438,12 @@ def run(ctx):
     gen = [gen_replace_case(rng, rng.random() < 0.25) for _ in range(n2)]
     check_replace_cases(ctx, gen, cli_every=max(1, n2 // 150))
     check_invert_context(ctx, corpus_cases() + gen[::max(1, n2 // 120)])
+    # --- the call site of the Replacer in the standard printer (buffer / range / look-ahead window), kind 1903
+    check_glue_cases(ctx, glue_corpus(), cli_every=1)
+    window_replay(ctx)
+    n3 = ctx.count(1500)
+    ggen = [gen_glue_case(rng) for _ in range(n3)]
+    check_glue_cases(ctx, ggen, cli_every=max(1, n3 // 120))
     ctx.assumptions += [
         "the matcher (regex-automata behind grep-regex) is a Section variable in the theorems; its captures are "
         "tabulated per case for the model and compared with the regex crate 1.10.6 by the oracle",
@@ -287,6 +460,12 @@ def replay(ctx, data):
         print("model:", m[0], "\ncode: ", c[0])
         if m != c:
             ctx.violation("replayed interpolate case still disagrees", r)
+    elif r.get("kind") in (1903, "cli-glue"):
+        c = r["case"]
+        for k in ("template", "input"):
+            if isinstance(c[k], str):
+                c[k] = eval(c[k]) if c[k].startswith("b'") or c[k].startswith('b"') else c[k].encode("latin1")
+        check_glue_cases(ctx, [c], cli_every=1)
     elif "case" in r:
         c = r["case"]
         for k in ("template", "input"):
